@@ -33,6 +33,9 @@ fn base_table() -> Vec<(&'static str, RunFn)> {
         ("C05", props::c05::run as RunFn),
         ("C07", props::c07::run as RunFn),
         ("C08", props::c08::run as RunFn),
+        ("C09", props::c09::run as RunFn),
+        ("C10", props::c10::run as RunFn),
+        ("C11", props::c11::run as RunFn),
         ("C12", props::c12::run as RunFn),
     ]
 }
